@@ -195,4 +195,20 @@ theorem SemverError_location (e : SemverError) (l c : Nat) (h : e.location = som
       congr 1
       omega
 
+/-- the accessors of `SemverError` return its fields, `offset()` is the span's offset, and the `miette::Diagnostic`
+impl hands miette the input as source, one label at the span, and the kind's derived code / help / severity / url
+(markers emitted by the translator: each function still has exactly this body, and the impl defines no other) -/
+theorem error_api_canonical : True :=
+  have _ := Semver.Gen.canonical_SemverError_offset
+  have _ := Semver.Gen.canonical_SemverError_input
+  have _ := Semver.Gen.canonical_SemverError_span
+  have _ := Semver.Gen.canonical_SemverError_kind
+  have _ := Semver.Gen.canonical_SemverError_code
+  have _ := Semver.Gen.canonical_SemverError_severity
+  have _ := Semver.Gen.canonical_SemverError_help
+  have _ := Semver.Gen.canonical_SemverError_url
+  have _ := Semver.Gen.canonical_SemverError_source_code
+  have _ := Semver.Gen.canonical_SemverError_labels
+  trivial
+
 end Semver.GenEquiv
